@@ -330,7 +330,7 @@ func c10PopOrderCheck(e *vsched.Exec, st *c10Conc) string {
 	// collect queue operations from the trace
 	type qop struct {
 		tid, step int
-		push     bool
+		push      bool
 	}
 	var ops []qop
 	for i, p := range e.Points {
